@@ -46,6 +46,8 @@ pub fn families() -> Vec<Family> {
         Family { name: "empty-value-headers", entry: RespCfg, cfg: 0, gen: |n| rep(RS, b"a:\r\n", n, b"\r\n") },
         Family { name: "folded-lines", entry: RespCfg, cfg: C_FOLDING, gen: |n| rep(b"HTTP/1.1 200 OK\r\nH: x\r\n", b" y\r\n", n, b"\r\n") },
         Family { name: "folded-empty-lines", entry: RespCfg, cfg: C_FOLDING, gen: |n| rep(b"HTTP/1.1 200 OK\r\nH:\r\n", b" \r\n", n, b"\r\n") },
+        Family { name: "folded-blank-lines", entry: RespCfg, cfg: C_FOLDING, gen: |n| rep(b"HTTP/1.1 200 OK\r\nX: a\r\n", b" \r\n", n, b"\r\n") },
+        Family { name: "folded-blank-lines-lf", entry: RespCfg, cfg: C_FOLDING | C_IGNORE_RESP, gen: |n| rep(b"HTTP/1.1 200 OK\nX: a\n", b"\t\n", n, b"\n") },
         Family { name: "folded-headers", entry: RespCfg, cfg: C_FOLDING, gen: |n| rep(RS, b"h: a\r\n b\r\n", n, b"\r\n") },
         Family { name: "folded-whitespace-tail", entry: RespCfg, cfg: C_FOLDING, gen: |n| rep(b"HTTP/1.1 200 OK\r\nH: x", b" \t", n, b"\r\n \r\n\r\n") },
         Family { name: "ignored-lines", entry: RespCfg, cfg: C_IGNORE_RESP, gen: |n| rep(RS, b"bad line\r\n", n, b"\r\n") },
